@@ -32,6 +32,7 @@ import datetime
 import logging
 import math
 import os
+import pickle
 import struct
 import time
 from collections.abc import Iterable, Mapping
@@ -851,7 +852,16 @@ def gen_pairs(ctx):
     k = 3000 if ctx.thorough else 160
     for _ in range(k):
         out.append((copy.deepcopy(rng.choice(uni)), copy.deepcopy(rng.choice(uni)), "universe"))
-    out.extend(shared_row_pairs(rng, 700 if ctx.thorough else 45))
+    out.extend(shared_row_pairs(rng, 700 if ctx.thorough else 60))
+    # a fixed fraction of the random pairs carries ONE container object at two positions of t1 and / or t2
+    import random
+    srng = random.Random(rng.random())
+    for i, (t1, t2, how) in enumerate(out):
+        if how.split(":")[0] in ("edit", "unrelated", "multi_edit_list", "shuffled_containers", "equal"):
+            a, sa = maybe_share(srng, t1, 0.3)
+            b, sb = maybe_share(srng, t2, 0.3)
+            if sa or sb:
+                out[i] = (a, b, how)
     return out
 
 
@@ -869,8 +879,40 @@ SHARED_SHAPES = {
 }
 
 
+def has_sharing(v):
+    """some list / dict / set object is reachable through two different positions of v"""
+    seen = set()
+
+    def walk(x):
+        if isinstance(x, (list, dict, set)):
+            if id(x) in seen:
+                return True
+            seen.add(id(x))
+        if isinstance(x, dict):
+            return any(walk(y) for y in x.values())
+        if isinstance(x, (list, tuple)):
+            return any(walk(y) for y in x)
+        return False
+    return walk(v)
+
+
 def text_of(v):
-    return SHARED_EXPR.get(id(v)) or repr(v)
+    """a Python expression that rebuilds v including its sharing (for failing-case records and replays)"""
+    e = SHARED_EXPR.get(id(v))
+    if e and e[0] is v:                      # the entry keeps the object alive, so its id is not reused
+        return e[1]
+    if has_sharing(v):
+        return "unpickle(%r)" % pickle.dumps(v, protocol=2).hex()
+    return repr(v)
+
+
+def maybe_share(rng, v, p=0.12):
+    """with probability p: the same value with one container occurring (as the same object) at a second position"""
+    if rng.random() < p:
+        w, ok = values.share(rng, v)
+        if ok:
+            return w, True
+    return v, False
 
 
 def shared_row_pairs(rng, n):
@@ -896,7 +938,7 @@ def shared_row_pairs(rng, n):
         exprs.append((shape % {"k": k, "row": row1, "extra": extra}, shape % {"k": k, "row": row2, "extra": extra}))
     for e1, e2 in exprs:
         t1, t2 = _ev(e1), _ev(e2)
-        SHARED_EXPR[id(t1)], SHARED_EXPR[id(t2)] = e1, e2
+        SHARED_EXPR[id(t1)], SHARED_EXPR[id(t2)] = (t1, e1), (t2, e2)
         out.append((t1, t2, "shared_rows"))
     return out
 
@@ -947,6 +989,17 @@ def oracle_pair(ctx, t1, t2, cfg, how, texts=None):
     try:
         d = DeepDiff(t1, t2, get_deep_distance=True, **cfg)
     except Exception as e:
+        # C19 speaks about the distance: a call that raises the same exception without get_deep_distance
+        # is not a failure of the distance computation (side observations are counted, see the notes)
+        try:
+            DeepDiff(copy.deepcopy(t1), copy.deepcopy(t2), **cfg)
+            same = False
+        except Exception as e2:
+            same = type(e2) is type(e)
+        if same:
+            ctx.count("oracle:raises_also_without_get_deep_distance:" + type(e).__name__)
+            ctx.note("raises_without_distance_example", "DeepDiff(%s, %s, **%r) raises %s: %s" % (case["t1"][:80], case["t2"][:80], cfg, type(e).__name__, str(e)[:100]))
+            return None
         case["exception"] = type(e).__name__
         ctx.fail(case, "DeepDiff(%s, %s, get_deep_distance=True, %r) raises %s: %s" % (case["t1"], case["t2"], cfg, type(e).__name__, e))
         return None
@@ -961,7 +1014,7 @@ def oracle_pair(ctx, t1, t2, cfg, how, texts=None):
             ctx.fail(case, "DeepDiff(%s, %s, get_deep_distance=True, %r)['deep_distance'] = %r is outside [0, 1]" % (case["t1"], case["t2"], cfg, dist))
         if equal and dist != 0:
             ctx.fail(case, "deep_distance = %r for equal inputs" % (dist,))
-    default_cfg = not cfg.get("ignore_order") and cfg.get("cutoff_distance_for_pairs", 0.3) == 0.3
+    default_cfg = set(cfg) <= {"view", "cutoff_distance_for_pairs"} and cfg.get("cutoff_distance_for_pairs", 0.3) == 0.3
     nonempty = any(k != "deep_distance" for k in d.keys())
     if default_cfg and cfg.get("view", "text") == "text" and nonempty and not (dist is not None and dist > 0):
         case["diff"] = repr({k: v for k, v in d.items() if k != "deep_distance"})[:400]
@@ -1008,8 +1061,30 @@ CONFIGS = [{}, {"ignore_order": True}, {"zip_ordered_iterables": True}, {"view":
            {"ignore_order": True, "cutoff_distance_for_pairs": 0.6}]
 
 
+def combo_config(rng):
+    """a random combination of the options that reach the distance code (pairs / triples of options, both accepted
+    shapes of cutoff_distance_for_pairs: float and int)"""
+    cfg = {}
+    io = rng.random() < 0.5
+    if io:
+        cfg["ignore_order"] = True
+    pool = [("view", ["tree", "text"]), ("cutoff_distance_for_pairs", [0.1, 0.5, 0.6, 1.0, 1, 0.3]), ("verbose_level", [0, 2]),
+            ("threshold_to_diff_deeper", [0, 0.5, 1]), ("ignore_numeric_type_changes", [True]), ("ignore_string_type_changes", [True]),
+            ("cache_size", [0, 500])]
+    pool += [("report_repetition", [True]), ("cutoff_intersection_for_pairs", [1, 0.2]), ("max_passes", [0, 1, 3])] if io \
+        else [("zip_ordered_iterables", [True]), ("ignore_order", [False])]
+    for name, vals in rng.sample(pool, rng.randint(2, 4)):
+        cfg[name] = rng.choice(vals)
+    return cfg
+
+
+MODEL_CFG_KEYS = {"view", "zip_ordered_iterables", "cutoff_distance_for_pairs", "verbose_level", "cache_size"}
+
+
 def rough_part(ctx):
     rng = ctx.rng
+    import random
+    crng = random.Random(ctx.seed ^ 0xC0B0)          # own stream for the option combinations
     rec = Recorder()
     rec.install()
     ctx.note("recorder_installed", rec.installed)
@@ -1020,15 +1095,19 @@ def rough_part(ctx):
     try:
         for (t1, t2, how) in gen_pairs(ctx):
             cfgs = [CONFIGS[0], CONFIGS[1]] + ([CONFIGS[2]] if (ctx.thorough or rng.random() < 0.5) else []) \
-                + rng.sample(CONFIGS[3:], 2 if ctx.thorough else 1)
+                + rng.sample(CONFIGS[3:], 2 if ctx.thorough else 1) + [combo_config(crng) for _ in range(2 if ctx.thorough else 1)]
             for cfg in cfgs:
                 rec.records.clear()
                 a, b = copy.deepcopy(t1), copy.deepcopy(t2)        # deepcopy keeps objects shared inside t1 / t2 shared
-                d = oracle_pair(ctx, a, b, cfg, how, texts=(text_of(t1), text_of(t2)) if how == "shared_rows" else None)
+                d = oracle_pair(ctx, a, b, cfg, how, texts=(text_of(t1), text_of(t2)))
                 nt = not same_typed(t1, t2)
                 ctx.seen(("rough", text_of(t1), text_of(t2), repr(sorted(cfg.items()))), nontrivial=nt)
                 ctx.count("rough:" + how.split(":")[0])
                 ctx.count("rough_cfg:" + ("ignore_order" if cfg.get("ignore_order") else "ordered") + "/" + cfg.get("view", "text"))
+                if len(cfg) > 2:
+                    ctx.count("rough_cfg:combination_of_%d_options" % len(cfg))
+                if has_sharing(t1) or has_sharing(t2):
+                    ctx.count("rough_inputs:with_shared_object")
                 recs = list(rec.records)
                 if not rec.installed and d is not None:
                     # fall back to the public observable and the semi-public delta dict
@@ -1069,7 +1148,9 @@ def rough_part(ctx):
                     if key in seen_keys:
                         continue
                     seen_keys.add(key)
-                    if in_universe(r["t1"]) and in_universe(r["t2"]) and res[0] == "ok":
+                    if in_universe(r["t1"]) and in_universe(r["t2"]) and res[0] == "ok" and not cfg.get("report_repetition"):
+                        # (with report_repetition a paired item is reported once per repetition: K28 - such deltas are
+                        # not position-disjoint; they are covered by the ignore-order model stream)
                         try:
                             ids2 = _Ids()
                             gen = coq_dv(r["delta"], ids2)
@@ -1094,7 +1175,7 @@ def rough_part(ctx):
                         if isinstance(x, bool) or not isinstance(x, (int, float)) or not (0 <= x <= 1):
                             ctx.fail({"kind": "pairing_distance", "t1": repr(r["t1"]), "t2": repr(r["t2"]), "config": cfg, "result": repr(x)},
                                      "distance %r used for pairing %s with %s is outside [0, 1]" % (x, repr(r["t1"]), repr(r["t2"])))
-                if d is not None and not cfg.get("ignore_order") and in_universe(t1) and in_universe(t2):
+                if d is not None and not cfg.get("ignore_order") and set(cfg) <= MODEL_CFG_KEYS and in_universe(t1) and in_universe(t2):
                     from harness import diffcommon as D
                     try:
                         if D.in_model_guard(t1, t2) and not has_crash_key(t1) and not has_crash_key(t2):
@@ -1358,7 +1439,8 @@ def extras_part(ctx):
 # ---------------------------------------------------------------------------
 
 def _ev(s):
-    ns = {"datetime": datetime, "Decimal": Decimal, "inf": math.inf, "nan": math.nan}
+    ns = {"datetime": datetime, "Decimal": Decimal, "inf": math.inf, "nan": math.nan,
+          "unpickle": lambda h: pickle.loads(bytes.fromhex(h))}
     return eval(s, ns)
 
 
@@ -1366,26 +1448,57 @@ def _f(x):
     return float(x)
 
 
-def m_type_change_excess(case):
-    """deep_distance > 1 and the excess is explained by type_changes entries whose two values are too small to pay
-    for the 2 (old_type, new_type) + len(new_value) operations they are charged."""
-    if case.get("kind") not in ("deep_distance", "pairing_distance") or "exception" in case:
-        return False
+def _reference_run(case):
+    """Re-run the failing call and recompute its distance independently of distance.py / DeepHash:
+    (delta-view dict the distance was computed from, operations by delta_ops, len1 + len2 by icount, the tree-view
+    result).  A root call (deep_distance) counts the delta before the add/remove rewrite (captured when the distance is
+    computed), a pairing call (pairing_distance) that of a nested DeepDiff(view='delta')."""
     from deepdiff import DeepDiff
     t1, t2 = _ev(case["t1"]), _ev(case["t2"])
     cfg = {k: v for k, v in case.get("config", {}).items() if k != "view"}
-    d = DeepDiff(t1, t2, **cfg)
+    exact = True
+    if case.get("kind") == "pairing_distance":
+        delta = DeepDiff(copy.deepcopy(t1), copy.deepcopy(t2), **cfg)._to_delta_dict(report_repetition_required=False)
+    else:
+        rec = Recorder()
+        rec.install()
+        try:
+            d = DeepDiff(copy.deepcopy(t1), copy.deepcopy(t2), get_deep_distance=True, **cfg)
+        finally:
+            rec.uninstall()
+        roots = [r for r in rec.records if r.get("root") and "delta" in r]
+        if roots:
+            delta = roots[-1]["delta"]
+        else:
+            delta, exact = d._to_delta_dict(report_repetition_required=False), False
+    tree = DeepDiff(copy.deepcopy(t1), copy.deepcopy(t2), view="tree", **cfg)
+    return delta, delta_ops(delta), icount(t1) + icount(t2), tree, exact
+
+
+def m_type_change_excess(case):
+    """the failing clause is the RANGE (deep_distance > 1), the reported value is exactly operations / (len1 + len2) as
+    recomputed independently (so a regression of the operation count or of the item lengths is not attributed here),
+    and the excess over 1 is paid for by type_changes entries whose two values are too small for the
+    2 (old_type, new_type) + len(new_value) operations they are charged."""
+    if case.get("kind") not in ("deep_distance", "pairing_distance") or "exception" in case:
+        return False
     dist = _ev(case.get("deep_distance", case.get("result")))
-    if dist is None or not dist > 1:
+    if dist is None or isinstance(dist, bool) or not isinstance(dist, (int, float)) or not dist > 1:
         return False
-    tcs = [(o, n) for (cat, o, n) in reported_values(d) if cat == "type_changes"]
-    bad = [(o, n) for (o, n) in tcs if 2 + (ilen(n) if n is not ... else 0) > (icount(o) if o is not ... else 1) + (icount(n) if n is not ... else 1)]
-    if not bad:
+    delta, ops, m, tree, exact = _reference_run(case)
+    if exact and dist != ops / m:
         return False
+    surplus, bad = 0, 0
+    for lv in tree.get("type_changes", []) or []:
+        e = delta.get("type_changes", {}).get(lv.path(force="fake"))
+        if e is None:
+            continue
+        over = dlen(e) - (icount(lv.t1) + icount(lv.t2))
+        if over > 0:
+            surplus += over
+            bad += 1
     # without the surplus of those entries the ratio is within range
-    surplus = sum(2 + ilen(n) - icount(o) - icount(n) for (o, n) in bad)
-    total = dist * (icount(t1) + icount(t2))
-    return total - surplus <= (icount(t1) + icount(t2)) + 1e-9
+    return bad > 0 and ops - surplus <= m
 
 
 def _num_case(case):
@@ -1650,12 +1763,46 @@ def m_repeated_pair_replicated(case):
     t1, t2 = _ev(case["t1"]), _ev(case["t2"])
     if not has_repeated_items(t1):
         return False
+    _delta, ops, m, _tree, exact = _reference_run(case)
+    if exact and dist != ops / m:          # the value is the one the mechanism predicts: replicated operations over the true lengths
+        return False
     for other in (dict(cfg, report_repetition=False), dict(cfg, max_passes=0)):
         d2 = DeepDiff(copy.deepcopy(t1), copy.deepcopy(t2), get_deep_distance=True, **other).get("deep_distance", 0)
         if d2 > 1 and not m_type_change_excess({"kind": "deep_distance", "t1": case["t1"], "t2": case["t2"], "config": other,
                                                 "deep_distance": repr(d2)}):
             return False
     return True
+
+
+def _contains_instance(v, cls):
+    if isinstance(v, cls):
+        return True
+    if isinstance(v, dict):
+        return any(_contains_instance(k, cls) or _contains_instance(x, cls) for k, x in v.items())
+    if isinstance(v, (list, tuple, set, frozenset)):
+        return any(_contains_instance(x, cls) for x in v)
+    return False
+
+
+def m_timedelta_hash_type_error(case):
+    """the failing clause is 'raises' with TypeError, the diff itself does not raise (checked by the oracle before it
+    reports), a timedelta occurs in the inputs, a number-normalising option is on, and DeepHash of a timedelta under
+    that option raises the TypeError (the item-length lookup of the distance hashes t1 / t2)"""
+    if case.get("kind") != "deep_distance" or case.get("exception") != "TypeError":
+        return False
+    cfg = case.get("config", {})
+    opts = {k: cfg[k] for k in ("ignore_numeric_type_changes", "significant_digits") if cfg.get(k) not in (None, False)}
+    if not opts:
+        return False
+    t1, t2 = _ev(case["t1"]), _ev(case["t2"])
+    if not (_contains_instance(t1, datetime.timedelta) or _contains_instance(t2, datetime.timedelta)):
+        return False
+    from deepdiff import DeepHash
+    try:
+        DeepHash(datetime.timedelta(days=1), **opts)
+    except TypeError:
+        return True
+    return False
 
 
 MATCHERS = {
@@ -1676,6 +1823,7 @@ MATCHERS = {
     "C19-K26-complex-type-error": m_complex,
     "C19-K27-group-by-value-error": m_group_by,
     "C19-K28-repeated-pair-replicated": m_repeated_pair_replicated,
+    "C19-K29-timedelta-hash-type-error": m_timedelta_hash_type_error,
 }
 
 
